@@ -15,17 +15,17 @@ Proof.
   unfold prod_z. cbn [fold_left]. lia.
 Qed.
 
-Lemma sm3_update_param_init p : sm3_update_param p (sm3_param p) = Ok (sm3_param p).
+Lemma sm3_update_param_init d p : sm3_update_param d p (sm3_param d p) = Ok (sm3_param d p).
 Proof.
   unfold sm3_update_param, sm3_param, qv_i8, qv, list_of.
   rewrite accs_fit_init, list_eqb_z_refl. reflexivity.
 Qed.
 
-Theorem sm3_fixed_point t l : sm3_init t = Ok l -> sm3_update t l = Ok l.
+Theorem sm3_fixed_point d t l : sm3_init d t = Ok l -> sm3_update repaired d t l = Ok l.
 Proof.
   unfold sm3_init. destruct (existsb (fun p => is_nil p) (leaves t)); [discriminate|].
   intro H. inversion H as [Hl]. clear H.
-  unfold sm3_update, count_leaf.
+  unfold sm3_update, count_leaf. cbn [bB2 repaired andb].
   rewrite collect_rebuild' by (unfold nleaves; rewrite map_length; reflexivity).
   rewrite map2o_id by (intros; apply sm3_update_param_init). reflexivity.
 Qed.
@@ -116,9 +116,9 @@ Proof.
 Qed.
 
 Theorem tf_fixed_point c t l :
-  shapes_pos c t -> tf_init repaired c t = Ok l -> tf_update c t l = Ok l.
+  shapes_pos c t -> tf_init repaired c t = Ok l -> tf_update repaired c t l = Ok l.
 Proof.
-  intros Hpos. unfold tf_init, tf_update.
+  intros Hpos. unfold tf_init, tf_update. cbn [bB3 repaired andb].
   destruct (tf_accepts repaired c); cbn [obind]; try discriminate.
   destruct (so_init c t) as [so| |] eqn:Eso; cbn [obind]; try discriminate.
   pose proof (so_update_init c t so Hpos Eso) as U.
